@@ -150,3 +150,14 @@ func UF64(name string, x float64) float64 { return x }
 func Same(a, b any) bool {
 	return fmt.Sprintf("%#v", a) == fmt.Sprintf("%#v", b)
 }
+
+// UFU32 is an uninterpreted function of its arguments (engine only; natively it panics:
+// guard uses with Native()).
+func UFU32(name string, args ...uint32) uint32 { panic("zzverif.UFU32 called natively") }
+
+// UFU64 is an uninterpreted function of its arguments (engine only).
+func UFU64(name string, args ...uint64) uint64 { panic("zzverif.UFU64 called natively") }
+
+// Override replaces the named function (ssa String() form, module path optional) by fn
+// for the rest of the path. Engine only; natively a no-op (guard with Native()).
+func Override(name string, fn any) {}
